@@ -72,8 +72,65 @@ def check_linear(rep, p, En, real) -> None:
                  {"kind": "map", "params": p, "energy": En, "defect": d})
 
 
+def cavity_track_case(rep, p, En, bt, ctxname) -> None:
+    import cheetah
+    import lattices as LT
+    phi = math.radians(p["phase"])
+    Eout = En + p["V"] * math.cos(phi)
+    P = LT.gen_particles(np.random.default_rng(int(En) % (2 ** 31)), 40, energy=En)
+    cav = E.build(p)
+    lat = cav if ctxname == "alone" else cheetah.Segment([cheetah.Marker(name="m0"), cav, cheetah.Marker(name="m1")])
+    inc = LT.particle_beam(P, En) if bt == "ParticleBeam" else LT.parameter_beam_from(P, En)
+    try:
+        out = lat.track(inc)
+    except Exception as ex:
+        rep.count(f"cavity-track-rejected:{type(ex).__name__}")
+        return
+    Eo = float(out.energy)
+    sign = "V>0" if p["V"] > 0 else "V<0"
+    rp = {"kind": "cavity-track", "params": p, "energy": En, "beam": bt, "context": ctxname}
+    if not abs(Eo - Eout) <= 1e-9 * abs(Eout):
+        rep.fail("falsifier", f"C03|Cavity.track|{sign}|energy", f"Cavity ({sign}, {ctxname}, {bt}): outgoing reference energy {Eo!r}, expected E_in + V cos(phi) = {Eout!r}", rp)
+        return
+    if bt == "ParticleBeam":
+        co = np.cov(out.particles.detach().numpy()[:, :6].T)
+    else:
+        co = out._cov.detach().numpy()[:6, :6]
+    ci = np.cov(P[:, :6].T)
+    for a, nm in ((0, "x"), (2, "y")):
+        di, do = np.linalg.det(ci[a:a + 2, a:a + 2]), np.linalg.det(co[a:a + 2, a:a + 2])
+        if not (di > 0 and do > 0):
+            continue
+        ratio = math.sqrt(do / di)
+        if not abs(ratio - En / Eo) <= 1e-6 * max(1.0, En / Eo):
+            rep.fail("falsifier", f"C03|Cavity.track|{sign}|area", f"Cavity ({sign}, {ctxname}, {bt}): {nm}-plane area ratio {ratio!r} but E_in/E_out = {En / Eo!r}", dict(rp, plane=nm))
+            return
+
+
+def cavity_track_probe(ctx, n: int) -> None:
+    """the damping clause on *tracked* beams: accelerating and decelerating cavities (voltage of either sign, deceleration
+    also expressed by the phase), both beam types, alone and inside a Segment — the outgoing reference energy is
+    E_in + V cos(phi) and the transverse phase-space area (from the tracked moments / particles) shrinks or grows by
+    E_in / E_out with that very outgoing energy"""
+    rep, rng = ctx.report, ctx.rng
+    for c in range(n):
+        p = E.gen_params(rng, "Cavity")
+        p["V"] = float(abs(p["V"]) if p["V"] != 0 else 1e6) * (1.0 if c % 2 == 0 else -1.0)
+        phi = math.radians(p["phase"])
+        En = float(np.exp(rng.uniform(np.log(2e7), np.log(2e9))))
+        Eout = En + p["V"] * math.cos(phi)
+        if Eout <= max(E.MC2 * 3.0, 0.2 * En) or abs(math.cos(phi)) < 1e-2:
+            continue
+        for bt in ("ParticleBeam", "ParameterBeam"):
+            for ctxname in ("alone", "segment"):
+                rep.fals_cases += 1
+                rep.case(("cavity-track", "V>0" if p["V"] > 0 else "V<0", bt, ctxname))
+                cavity_track_case(rep, p, En, bt, ctxname)
+
+
 def run(ctx) -> None:
     rep, rng = ctx.report, ctx.rng
+    cavity_track_probe(ctx, ctx.n(10, 300))
     bad = run_maps_correspondence(ctx, "C03", ctx.n(30, 800))
     for p, En, real, model, entry in bad:
         before = len(rep.failures)
@@ -230,6 +287,9 @@ def replay(ctx, data) -> bool:
         return bool(rep.failures)
     if r.get("kind") == "vector_map":
         vector_case(rep, r)
+        return bool(rep.failures)
+    if r.get("kind") == "cavity-track":
+        cavity_track_case(rep, r["params"], r["energy"], r["beam"], r["context"])
         return bool(rep.failures)
     if r.get("kind") == "retune":
         import context_probes as CP
